@@ -536,4 +536,106 @@ Denotes(ms, req, s0, c0) ==
   LET c == Consumable(ms, req, 1, <<>>)
   IN [rd |-> DeclRead(c.seq, req, s0, c0), allValid |-> c.allValid]
 
+--------------------------------------------------------------------------
+(* Stream client: src/net/client/stream.rs, check_stream() and its XFRState *)
+(* machine - how a multi-response request (RequestMessageMulti through      *)
+(* stream::Connection) finds the end of the transfer.  The state carries    *)
+(* the serial of the *first* SOA (the server's current one).                *)
+
+Cs(k, ser) == [k |-> k, ser |-> ser]
+CsError == Cs("Error", -1)
+CsDone == Cs("Done", -1)
+CsInit(req) == Cs(IF req = AXFR THEN "AXFRInit" ELSE "IXFRInit", -1)   \* insert_req
+
+\* the record classes the loop over the answer section tells apart
+CsClass(x, r) == IF ~IsSoa(r) THEN "data"
+                 ELSE IF SoaSerial(r) = x.ser THEN "soa_match" ELSE "soa_other"
+
+\* one answer record seen in state x (x is neither Error nor ... see CsMsg)
+CsRecord(x, r) ==
+  LET c == CsClass(x, r) IN
+  CASE x.k = "AXFRInit" -> IF c = "data" THEN CsError ELSE Cs("AXFRFirstSoa", SoaSerial(r))
+    [] x.k = "AXFRFirstSoa" -> IF c = "data" THEN x
+                               ELSE IF c = "soa_match" THEN CsDone ELSE CsError
+    [] x.k = "IXFRInit" -> IF c = "data" THEN CsError ELSE Cs("IXFRFirstSoa", SoaSerial(r))
+    [] x.k = "IXFRFirstSoa" -> IF c = "data" THEN Cs("AXFRFirstSoa", x.ser)      \* AXFR-style answer
+                               ELSE IF c = "soa_match" THEN CsDone               \* "strange empty AXFR"
+                               ELSE Cs("IXFRFirstDiffSoa", x.ser)
+    [] x.k = "IXFRFirstDiffSoa" -> IF c = "data" THEN x ELSE Cs("IXFRSecondDiffSoa", x.ser)
+    [] x.k = "IXFRSecondDiffSoa" -> IF c = "data" THEN x
+                                    ELSE IF c = "soa_match" THEN CsDone
+                                    \* (M_cs_intermediate_serial: a mutant of the machine, used only
+                                    \* to show that ClientEndAgrees can fail - MC_XfrClient_mut.cfg)
+                                    ELSE Cs("IXFRFirstDiffSoa", IF "M_cs_intermediate_serial" \in Dev
+                                                                THEN SoaSerial(r) ELSE x.ser)
+    [] x.k = "Done" -> CsError               \* a record after the end
+    [] OTHER -> CsError
+
+CsRet(eof, x, ans) == [eof |-> eof, x |-> x, ans |-> ans]
+
+\* RequestMessageMulti::is_answer (request.rs): QR, the ID, and the question
+\* of the request - which a response to an AXFR query may leave out (RFC 5936
+\* 2.2 allows that from the second message on; the function is not told which
+\* message it looks at)
+CsIsAnswer(req, m) ==
+  /\ m.qr = 1 /\ m.id = 1
+  /\ IF m.rc # 0 /\ m.qdc = 0 /\ m.anc = 0 /\ m.nsc = 0 THEN TRUE
+     ELSE IF req = AXFR /\ m.qdc = 0 THEN TRUE
+     ELSE m.qdc = 1 /\ Len(m.qd) = 1 /\ m.qd[1] = <<0, req>>
+
+\* what check_stream does before it looks at the records: <<>> = go on
+CsBefore(x, req, m) ==
+  IF x.k \in {"AXFRInit", "IXFRInit"} /\ ~CsIsAnswer(req, m) THEN <<CsRet(FALSE, CsError, FALSE)>>
+  ELSE IF x.k = "Done" THEN <<CsRet(FALSE, CsError, FALSE)>>
+  ELSE IF x.k = "Error" THEN <<CsRet(FALSE, x, FALSE)>>
+  ELSE IF m.rc # 0 THEN (IF ~CsIsAnswer(req, m) THEN <<CsRet(FALSE, CsError, FALSE)>>
+                         ELSE <<CsRet(TRUE, x, TRUE)>>)
+  ELSE <<>>
+\* ... and after the last record the answer section yields
+CsAfter(x, m) ==
+  IF x.k = "Error" THEN CsRet(FALSE, x, FALSE)                       \* the loop returned early
+  ELSE IF m.anc > Len(m.an) THEN CsRet(TRUE, CsError, FALSE)         \* a record that does not parse
+  ELSE IF x.k \in {"AXFRInit", "IXFRInit"} THEN CsRet(FALSE, CsError, FALSE)   \* empty answer section
+  ELSE IF x.k \in {"IXFRFirstSoa", "Done"} THEN CsRet(TRUE, CsDone, TRUE)      \* lone SOA: nothing more to say
+  ELSE CsRet(FALSE, x, TRUE)
+
+RECURSIVE CsRecs(_, _)
+CsRecs(x, recs) == IF recs = <<>> \/ x.k = "Error" THEN x
+                   ELSE CsRecs(CsRecord(x, Head(recs)), Tail(recs))
+\* check_stream(msg, xfr_state, answer) = (eof, xfr_state, is_answer)
+CheckStream(x, req, m) ==
+  IF CsBefore(x, req, m) # <<>> THEN CsBefore(x, req, m)[1]
+  ELSE CsAfter(CsRecs(x, Yielded(m)), m)
+
+\* demux_reply + the request handle: what get_response() hands out, message
+\* by message - <<"ok", i>> message i of the stream, <<"wrong", i>>
+\* Error::WrongReplyForQuery for message i, <<"eof", i>> the end of the
+\* response stream reported after message i; a request that is still
+\* registered when the peer closes the connection ends in an error.  Once the
+\* end has been reported the request is gone and later messages are ignored.
+RECURSIVE ClientFrom(_, _, _, _, _)
+ClientFrom(x, req, ms, i, outs) ==
+  IF i > Len(ms) THEN Append(outs, <<"closed", Len(ms)>>)
+  ELSE LET c == CheckStream(x, req, ms[i])
+           o == Append(outs, <<IF c.ans THEN "ok" ELSE "wrong", i>>)
+       IN IF c.eof THEN Append(o, <<"eof", i>>) ELSE ClientFrom(c.x, req, ms, i + 1, o)
+ClientRun(req, ms) == ClientFrom(CsInit(req), req, ms, 1, <<>>)
+
+\* Where does the transfer end?  Declaratively: after the first message up to
+\* which the stream completely describes a transfer (DeclRead), or - RFC 1995
+\* 2 and 4 - with a first message that answers an IXFR query with nothing but
+\* the server's SOA (up to date / retry).  0: it does not end.
+EndsAt(ms, req, s0, c0) ==
+  LET Ends(i) == LET d == Denotes(SubSeq(ms, 1, i), req, s0, c0) IN
+                 \/ d.allValid /\ d.rd.complete /\ ~d.rd.bad
+                 \/ i = 1 /\ req = IXFR /\ d.allValid /\ Len(ms[1].an) = 1 /\ IsSoa(ms[1].an[1])
+      I == {i \in 1..Len(ms) : Ends(i)}
+  IN IF I = {} THEN 0 ELSE CHOOSE i \in I : \A j \in I : i <= j
+\* what a client that hands out exactly the messages of the transfer, in
+\* order, and then the end does
+ClientIdeal(ms, req, s0, c0) ==
+  LET e == EndsAt(ms, req, s0, c0) IN
+  IF e = 0 THEN [i \in 1..Len(ms) |-> <<"ok", i>>] \o << <<"closed", Len(ms)>> >>
+  ELSE [i \in 1..e |-> <<"ok", i>>] \o << <<"eof", e>> >>
+
 ==============================================================================
